@@ -24,7 +24,13 @@ class RawGen:
                 kw[r.choice(KEYS)] = self.raw(depth - 1)
             return {"$call": r.choice(OPS), "args": args, "kw": kw}
         if c < 0.8:
-            return {"$list": [self.raw(depth - 1) for _ in range(r.choice([0, 1, 2, 2, 3]))]}
+            items = [self.raw(depth - 1) for _ in range(r.choice([0, 1, 2, 2, 3]))]
+            calls = [v for v in items if isinstance(v, dict) and "$call" in v]
+            if calls and r.random() < 0.3:
+                # the SAME node a second time (to_switch_call puts the subject of a simple CASE under every WHEN):
+                # to_python(memo=...) builds one object for both places
+                items.insert(r.randrange(len(items) + 1), r.choice(calls))
+            return {"$list": items}
         d = {}
         for _ in range(r.choice([1, 1, 2, 3])):
             d[r.choice(KEYS)] = self.raw(depth - 1)
@@ -51,16 +57,22 @@ def to_driver(x):
     raise ValueError(x)
 
 
-def to_python(x, Call, SQL_NULL):
-    """build the value with the REAL library's classes (fresh containers every time)"""
+def to_python(x, Call, SQL_NULL, memo=None):
+    """build the value with the REAL library's classes (fresh containers every time; with `memo`, a call node that
+    occurs twice in the description - the same description object - is ONE Call object in both places)"""
     if x == "NULL":
         return SQL_NULL
     if x is None or isinstance(x, (bool, str, int, float)):
         return x
     if "$call" in x:
-        return Call(x["$call"], to_python(x["args"], Call, SQL_NULL), {k: to_python(v, Call, SQL_NULL) for k, v in x["kw"].items()})
+        if memo is not None and id(x) in memo:
+            return memo[id(x)]
+        out = Call(x["$call"], to_python(x["args"], Call, SQL_NULL, memo), {k: to_python(v, Call, SQL_NULL, memo) for k, v in x["kw"].items()})
+        if memo is not None:
+            memo[id(x)] = out
+        return out
     if "$list" in x:
-        return [to_python(v, Call, SQL_NULL) for v in x["$list"]]
+        return [to_python(v, Call, SQL_NULL, memo) for v in x["$list"]]
     if "$dict" in x:
-        return {k: to_python(v, Call, SQL_NULL) for k, v in x["$dict"]}
+        return {k: to_python(v, Call, SQL_NULL, memo) for k, v in x["$dict"]}
     raise ValueError(x)
